@@ -290,6 +290,7 @@ def main(argv, registry):
     ap.add_argument("--seed-run", type=int, help="run one raw run seed verbosely")
     ap.add_argument("--runs", type=int)
     ap.add_argument("--digests", action="store_true", help="print per-run digests (determinism self-test)")
+    ap.add_argument("--survey", action="store_true", help="triage aid: list every distinct violation signature with counts (no minimisation, no verdict)")
     a = ap.parse_args(argv)
     sim_cls = registry(a.prop)
     base_seed = int(os.environ.get("VERIF_SEED", "20261001"))
@@ -308,6 +309,28 @@ def main(argv, registry):
         print(json.dumps({"cfg": r.cfg, "events": r.events}, default=engine.canon)[:6000])
         print("digest", r.digest, "steps", r.steps, "violation", r.violation)
         return EXIT_VIOLATION if r.violation else EXIT_OK
+    if a.survey:
+        import collections
+        n = a.runs or 1000
+        known = load_known(a.prop)
+        ctx = mp.get_context("fork")
+        tasks = [(sim_cls, base_seed, a.tier, lo, min(lo + sim_cls.BLOCK, n), known) for lo in range(0, n, sim_cls.BLOCK)]
+        sigs = collections.Counter()
+        ex1 = {}
+        with cf.ProcessPoolExecutor(max_workers=min(16, os.cpu_count() or 1), mp_context=ctx) as ex:
+            for recs in ex.map(_block, tasks):
+                for r in recs:
+                    if "harness_error" in r:
+                        sigs[("HARNESS", r["harness_error"].strip().splitlines()[-1][:150])] += 1
+                        ex1.setdefault(("HARNESS", r["harness_error"].strip().splitlines()[-1][:150]), (r["seed"], ""))
+                    elif "violation" in r:
+                        k = tuple(r["violation"]["signature"][1:]) + (("known:" + r["known"],) if r.get("known") else ())
+                        sigs[k] += 1
+                        ex1.setdefault(k, (r["seed"], r["violation"]["detail"][:300]))
+        for k, c in sorted(sigs.items(), key=lambda kv: -kv[1]):
+            print("%6d  %s\n          seed=%s %s" % (c, " | ".join(map(str, k)), ex1[k][0], ex1[k][1].replace("\n", " ")[:260]))
+        print("%d runs, %d distinct signatures" % (n, len(sigs)))
+        return EXIT_OK
     if a.digests:
         n = a.runs or 200
         for i in range(n):
